@@ -25,7 +25,7 @@ ASSUMPTIONS = [
     "alignBoundariesAcrossTiers' documented ArgumentError guard (reference timestamps closer than maxDifference) is accepted whenever two consecutive reference timestamps are closer than maxDifference",
     "morph tolerance: 8 ulp per interval of the largest timestamp involved",
 ]
-REQUIRED_CLASSES = ["dejitter:reference_edited_in_place", "dejitter:moved", "dejitter:exactly_maxdiff_must_move", "morph:empty_label_selected", "dejitter:equidistant", "dejitter:stays", "morph:adjacent_decimal",
+REQUIRED_CLASSES = ["align:moved_tiny", "dejitter:reference_edited_in_place", "dejitter:moved", "dejitter:exactly_maxdiff_must_move", "morph:empty_label_selected", "dejitter:equidistant", "dejitter:stays", "morph:adjacent_decimal",
                     "dejitter:collapse_rejected", "align:moved"]
 
 REL = Fraction(1, 10**12)
@@ -39,6 +39,8 @@ def allowed_values(t, refs, m):
     if d < m_ * (1 - REL) or d == m_:
         # 'within maxDifference' includes a distance of exactly maxDifference (exact on the dyadic grid)
         cls = "already_on_ref" if d == 0 else ("exactly_maxdiff_must_move" if d == m_ else "moved")
+        if 0 < d < t_ * Fraction(1, 10**9):
+            cls = "moved_tiny"
         return set(nearest), cls, len(nearest) > 1
     if d > m_ * (1 + REL):
         return {t}, "stays", False
@@ -139,7 +141,7 @@ def run_dejitter(case):
         raise Violation("operand-mutated", what)
     snap = snap_tier(res)
     cl = check_dejitter_result(spec, refs, m, snap, what) | extra
-    if "exactly_maxdiff_must_move" in cl:
+    if "exactly_maxdiff_must_move" in cl or "moved_tiny" in cl:
         cl.add("moved")
     return {"classes": sorted(cl), "nontrivial": "moved" in cl and "stays" in cl}
 
@@ -183,6 +185,8 @@ def run_align(case):
             if t["name"] == refname:
                 continue
             cl |= check_dejitter_result(t, refs, m, snap_tier(res.getTier(t["name"])), f"{what} tier {t['name']}")
+    if "moved_tiny" in cl or "exactly_maxdiff_must_move" in cl:
+        cl.add("moved")
     return {"classes": sorted(cl), "nontrivial": "moved" in cl}
 
 
@@ -266,9 +270,11 @@ def ref_for(draw, style, timestamps, m, name="ref"):
         return {"type": "point", "name": name, "entries": [], "minT": 0.0, "maxT": 1.0, "style": style}
     vals = set()
     for t in timestamps:
-        k = draw(st.sampled_from(["none", "same", "half", "exact", "exact_neg", "over", "both", "none"]))
+        k = draw(st.sampled_from(["none", "same", "half", "exact", "exact_neg", "over", "both", "none", "tiny"]))
         if k == "same":
             vals.add(t)
+        elif k == "tiny" and t > 0:
+            vals.add(t * (1 + 2 ** -36))  # 1.5e-11 relative: far below maxDifference, yet a different number
         elif k == "half":
             vals.add(t + m / 2)
         elif k == "exact":
